@@ -64,6 +64,7 @@ def parse_compact(command: str):
         "r": "read",
         "w": "write",
         "a": "aread",
+        "at": "areadt",
         "la": "reada",
         "ao": "awrite",
         "av": "vwrite",
@@ -78,6 +79,8 @@ def parse_compact(command: str):
             ops.append(["sleep", float(v)])
         elif k == "x":
             ops.append(["exit", int(v)])
+        elif k == "at":
+            ops.append(["areadt", *v.split("::")])
         elif k in table:
             ops.append([table[k], v])
         else:
